@@ -173,6 +173,9 @@ def check_C03(tier, seed):
     run_pipeline(res, binary, "sweep", gen_lines=gens.gen_c03_sweep(rng, 64 if q else 300), nshards=8 if q else 16)
     run_pipeline(res, binary, "extreme", gen_lines=gens.gen_c03_extreme(rng, 150 if q else 3000), nshards=4 if q else 16)
     run_pipeline(res, binary, "leap-only", gen_lines=gens.gen_leap_only_zones(rng, 30 if q else 600), nshards=2 if q else 8)
+    # 'at or after the last transition: whatever the trailing rule prescribes' - tables (often on the leap scale) handing over to a DST rule
+    run_pipeline(res, binary, "table-then-rule", gen_lines=events_of(*(gens.gen_rule_zone_session(rng, gens.corpus_rule(i) if i % 2 else gens.rand_rule(rng), with_table=True, do_find=False, nprobe=40, leaps=(i % 3 != 0))
+                                                                  for i in range(16 if q else 400))), nshards=4 if q else 16)
     run_pipeline(res, binary, "random", gen_lines=events_of(*(gens.gen_zone_session(rng, gens.gen_table_zone(rng, nmax=20), do_find=False) for _ in range(150 if q else 3000))), nshards=8 if q else 16)
     if not q:
         # algorithm layer: the binary search and the forward leap scan, as PlusCal shaped like the Rust, refine the declarative definitions
@@ -490,6 +493,16 @@ def check_C09(tier, seed):
     run_pipeline(res, binary, "vec", vec_path=raw, validate=False)
     os.remove(raw)
     run_pipeline(res, binary, "strings", gen_lines=gens.gen_tzstrings(rng, 6000 if q else 100000), nshards=12 if q else 16)
+    def near_rules():
+        # a sentence also has to be a rule the library can hold: start and end days that coincide or nearly do in some years, times
+        # and offsets a few minutes either side of zero, written out (the decision must be the constructor's, C11)
+        for _ in range(150 if q else 3000):
+            r = gens.small_time_rule(rng)
+            r["ed"] = gens.near_ruleday(rng, r["sd"]) if rng.random() < 0.7 else r["ed"]
+            if rng.random() < 0.4:
+                r["st"], r["et"] = rng.choice([(7200, 5400), (7200, 9000), (3600, 7200), (0, 86400), (86400, 0), (7200, 7200)])
+            yield r
+    run_pipeline(res, binary, "rules-as-strings", gen_lines=gens.gen_rule_strings(rng, near_rules()), nshards=8 if q else 16, min_events=50)
     res.notes["rule"] = "vectors: sentences assembled from components carrying their denotation (all spellings of names, offsets, days, times; one or two slots varied at a time; truncations) and every string of <= MaxTok tokens of a 20-token alphabet, each through the settings path (extensions off), a v2 footer (off) and a v3 footer (on); events: seeded sentences, full component products and single/double byte edits incl. NUL, non-UTF-8 and interior whitespace"
     return res.finish()
 
